@@ -149,8 +149,7 @@ let run line =
   let logpart =
     if acc < List.length toks_ then accepted ^ (if acc > 0 then " " else "") ^ Printf.sprintf "REJECT@%d" acc
     else accepted in
-  let nd1 = (if c.dout then 1 else 0) + (if c.din then 1 else 0) in
-  let spec_ok = log_sb (nat_of_int c.t) (nat_of_int c.n) (nat_of_int (c.n * nd1)) log in
+  let spec_ok = log_sb (nat_of_int c.t) (nat_of_int c.n) log in
   let outcome =
     match st.gp with
     | GEnd _ when acc = List.length toks_ && not spec_ok ->
@@ -172,12 +171,11 @@ let run_sb line =
   | None -> verdict false ("outcome:" ^ impl)
   | Some (o, ilog, allocs) ->
     let (log, _) = parse_log ilog in
-    let nd1 = (if c.dout then 1 else 0) + (if c.din then 1 else 0) in
     let faulty = c.faults <> [] in
     if o = "hang" then verdict false "hang"
     else if faulty && not (String.length o >= 6 && String.sub o 0 6 = "panic ") then verdict false ("no-caller-panic:" ^ o)
     else if (not faulty) && o <> "ok" then verdict false ("unexpected-outcome:" ^ o)
-    else if not (log_sb (nat_of_int c.t) (nat_of_int c.n) (nat_of_int (c.n * nd1)) log) then verdict false "phase-order"
+    else if not (log_sb (nat_of_int c.t) (nat_of_int c.n) log) then verdict false "phase-order"
     else if (not faulty) && allocs <> model_allocs c cfg then verdict false "foreign-or-missing-allocations"
     else "true"
 
